@@ -11,6 +11,28 @@ type ln struct {
 	s    string
 	sc   int  // leading chars that are purely structural (markers/indentation): spaces in there may be respelled with tabs
 	lazy bool // paragraph continuation text starting with a letter: enclosing containers may omit their prefix
+	// blank: a separator line between blocks; a line holding only spaces or tabs is just as blank (CommonMark 2.1),
+	// whatever its width, so the enclosing serialisers spell it with any amount of white space
+	blank bool
+	// icblank: an empty line of an indented code block spelled as a lone tab
+	icblank bool
+}
+
+// blankSpelling spells a blank separator line whose structural prefix is w columns wide.
+func (z *Z) blankSpelling(w int) string {
+	switch z.s.Intn(4) {
+	case 0:
+		return ""
+	case 1:
+		z.note("blank-line-with-spaces")
+		return sp(1 + z.s.Intn(w+3))
+	case 2:
+		if w == 0 && z.tabs {
+			z.note("blank-line-with-tab")
+			return []string{"\t", " \t", "\t ", "  \t  "}[z.s.Intn(4)]
+		}
+	}
+	return sp(z.s.Intn(2) * w)
 }
 
 var tabMode = 0 // 0 all, 1 only runs starting at column 0, 2 only runs right after '>', 3 only runs right after a list marker
@@ -286,6 +308,10 @@ func (z *Z) fcode(f FCode, extraOK bool) []ln {
 	for _, l := range f.Lines {
 		if l == "" && coin(z.s, 1, 2) {
 			out = append(out, ln{s: ""})
+		} else if l == "" && ind > 0 && coin(z.s, 1, 2) {
+			// up to N columns of indentation are removed from each content line: fewer than N spaces are all removed
+			out = append(out, ln{s: sp(z.s.Intn(ind + 1))})
+			z.note("fence-short-blank-content-line")
 		} else {
 			out = append(out, ln{s: sp(ind) + l, sc: ind})
 		}
@@ -301,7 +327,12 @@ func (z *Z) fcode(f FCode, extraOK bool) []ln {
 func (z *Z) icode(c ICode) []ln {
 	var out []ln
 	for _, l := range c.Lines {
-		if l == "" {
+		if l == "" && z.tabs && coin(z.s, 1, 3) {
+			// white space reaching column 4 at most: nothing is left of the line
+			// (a lone tab is at most 4 columns wide wherever it starts; at column 0 spaces may precede it, see doc)
+			out = append(out, ln{s: "\t", icblank: true})
+			z.note("icode-blank-line-with-tab")
+		} else if l == "" {
 			out = append(out, ln{s: sp(z.s.Intn(5))})
 		} else {
 			out = append(out, ln{s: "    " + l, sc: 4})
@@ -320,7 +351,9 @@ func (z *Z) quote(q Quote, extraOK bool) []ln {
 			continue
 		}
 		p := z.ind3(extraOK) + ">"
-		if l.s == "" {
+		if l.s == "" && l.blank {
+			p += sp(z.s.Intn(5))
+		} else if l.s == "" {
 			p += sp(z.s.Intn(2))
 		} else if l.s[0] == ' ' || l.s[0] == '\t' || coin(z.s, 3, 4) {
 			p += " "
@@ -379,6 +412,8 @@ func (z *Z) list(l List, extraOK bool, avoidMarker byte) []ln {
 			switch {
 			case j == 0:
 				out = append(out, ln{s: base + marker + sp(gap) + x.s, sc: len(base) + w + x.sc})
+			case x.s == "" && x.blank:
+				out = append(out, ln{s: z.blankSpelling(len(base) + w)})
 			case x.s == "":
 				out = append(out, ln{s: sp(z.s.Intn(2) * (len(base) + w))})
 			case x.lazy && z.lazy && coin(z.s, 1, 2):
@@ -420,9 +455,9 @@ func (z *Z) blocks(bs []Block, tight bool, extraOK bool, marker byte) []ln {
 					panic("tight adjacency")
 				}
 			} else if !d || marker != 0 || coin(z.s, 1, 2) {
-				out = append(out, ln{s: ""})
+				out = append(out, ln{s: "", blank: true})
 				if coin(z.s, 1, 5) {
-					out = append(out, ln{s: ""})
+					out = append(out, ln{s: "", blank: true})
 				}
 			} else {
 				z.note("no-blank")
@@ -549,6 +584,14 @@ func (z *Z) doc(d Doc) string {
 		if len(carry) > 0 {
 			var ls []string
 			for _, l := range z.blocks(carry, false, true, 0) {
+				if l.blank && l.s == "" {
+					ls = append(ls, z.blankSpelling(0))
+					continue
+				}
+				if l.icblank && l.s == "\t" { // top level: the line starts at column 0, so up to 3 spaces in front of the tab still end at column 4
+					ls = append(ls, sp(z.s.Intn(4))+"\t")
+					continue
+				}
 				ls = append(ls, z.tabify(l))
 			}
 			groups = append(groups, ls)
